@@ -93,6 +93,10 @@ def do_run(sid, checks):
         print("patch does not apply:", a.stderr)
         return 2
     results = {}
+    # evidence files are rewritten by every check run: keep the clean-tree ones (a run against a seeded tree must not
+    # end up committed as evidence)
+    ev_dir = os.path.join(VERIF, "evidence")
+    ev_saved = {f: open(os.path.join(ev_dir, f)).read() for f in os.listdir(ev_dir) if f.endswith(".json")}
     try:
         cp = pure_copy()
         rc, out = run_demo({"dir": dst, "copy": cp})
@@ -116,6 +120,8 @@ def do_run(sid, checks):
             print(c, json.dumps(info)[:600])
     finally:
         sh(["git", "-C", REPO, "checkout", "--", "."])
+        for f, txt in ev_saved.items():
+            open(os.path.join(ev_dir, f), "w").write(txt)
     cp = pure_copy()
     rc0, out0 = run_demo({"dir": dst, "copy": cp})
     shutil.rmtree(cp, True)
